@@ -1,6 +1,7 @@
 (* lexCode and the literal lexers of internal/compiler/lexer.go
    (lexIdentifierOrKeyword, lexNumber, lexInterpretedString, lexRawString,
-   lexRuneLiteral), for templates (templateSyntax = true).  No proofs here. *)
+   lexRuneLiteral), for templates and programs (field l_tsyn = templateSyntax).
+   No proofs here. *)
 From Verif Require Import Bytes Utf8 Facts_lexer LexBase.
 Open Scope N_scope.
 
@@ -21,14 +22,18 @@ Definition ident_body (l : lexer) (st : N * N) : res (step (N * N)) :=
     else Ok (Again (p + N.of_nat w, cols + 1))
   else Ok (Stop st).
 
-Definition kw_lookup (id : bytes) : N :=
-  match bassoc gen_keywords_template id with Some t => t | None => gen_tokenIdentifier end.
+(* the keyword switch, with the words of the template syntax when l.templateSyntax *)
+Definition kw_lookup (tsyn : bool) (id : bytes) : N :=
+  match bassoc (if tsyn then gen_keywords_template else gen_keywords_program) id with
+  | Some t => t
+  | None => gen_tokenIdentifier
+  end.
 
 Definition lex_ident (s : N) (l : lexer) : res (lexer * N * bytes) :=
   let* (p, cols) := loop (S (length (l_src l))) (ident_body l) (s, 1) in
   if len l <? p then Fault else
   let id := take p (l_src l) in
-  let typ := kw_lookup id in
+  let typ := kw_lookup (l_tsyn l) id in
   let* l1 := emit typ p l in
   Ok (addcol cols l1, typ, id).
 
@@ -329,7 +334,9 @@ Definition code_ident (endt first : N) (c : N) (s : cst) : res (step cst) :=
         else Err l
       else let* x := lex_ident (N.of_nat w) l in Ok (Some x) in
   match r with
-  | None => let* l1 := advance 3 l in Ok (Again (cset_l l1 (c_elas s) s))
+  | None =>
+    (* l.src = l.src[utf8.RuneLen(BOM):]; ghost: the byte order mark is a character that takes no column *)
+    let* l1 := advance 3 l in Ok (Again (cset_l (mark_cdev l1) (c_elas s) s))
   | Some (l1, typ, txt) =>
     let s1 :=
       if endt =? gen_tokenEndStatement then
